@@ -1053,13 +1053,15 @@ class AmenSolve:
         g = _guess(rng, S, gen.ints(A.obj.N), dt_of(A.obj))
         return [A.sid, b.sid] + ([g.sid] if g else []), {
             'guess': g is not None, 'nswp': rng.choice([1, 2, 3]), 'eps': rng.choice([1e-8, 1e-4]),
-            'prec': rng.choice([None, None, 'c', 'r']), 'max_full': rng.choice([0, 500]), 'ls': rng.choice([1, 2])}
+            'prec': rng.choice([None, None, 'c', 'r']), 'max_full': rng.choice([0, 500]), 'ls': rng.choice([1, 2]),
+            'kick2': rng.choice([0, 0, 1]), 'trunc': rng.choice(['res', 'res', 'fro']), 'single': rng.random() < 0.1}
 
     @staticmethod
     def run(S, objs, p):
         return torchtt.solvers.amen_solve(objs[0], objs[1], nswp=p['nswp'], x0=objs[2] if p['guess'] else None, eps=p['eps'],
                                           max_full=p['max_full'], local_solver=p['ls'], local_iterations=6, resets=1,
-                                          preconditioner=p['prec'], use_cpp=False, verbose=False)
+                                          preconditioner=p['prec'], use_cpp=False, verbose=False, kick2=p.get('kick2', 0),
+                                          trunc_norm=p.get('trunc', 'res'), use_single_precision=p.get('single', False))
 
 
 @op('divide', 1.2)
@@ -1114,7 +1116,9 @@ class Cross:
             return torchtt.interpolate.dmrg_cross(f, N, eps=p['eps'], nswp=p['nswp'], x_start=g)
         if p['mode'] == 'fi_uni':
             return torchtt.interpolate.function_interpolate(lambda v: v * v + 1.0, x, eps=p['eps'], start_tens=g, nswp=p['nswp'])
-        xs = [x] * len(N)
+        others = [e.obj for e in S.objs(lambda y: is_t(y) and dt_of(y) == torch.float64 and gen.ints(y.N) == N)]
+        xs = [(others[k % len(others)] if others else x) for k in range(len(N))]
+        xs[0] = x
         return torchtt.interpolate.function_interpolate(lambda v: torch.sum(v, 1) + 1.0, xs, eps=p['eps'], start_tens=g, nswp=p['nswp'])
 
 
@@ -1220,6 +1224,42 @@ class Watch:
             torchtt.grad.watch(x, p['idx'])
         else:
             torchtt.grad.unwatch(x)
+        return None
+
+
+@op('grad', 1.0, inplace=True)
+class Grad:
+    """watch -> scalar expression -> grad -> unwatch (the documented AD workflow; only requires_grad/.grad of the
+    watched object may change)."""
+    @staticmethod
+    def pick(rng, S):
+        c = S.objs(lambda a: dt_of(a) == torch.float64 and is_t(a) and all(not k.requires_grad and k.grad_fn is None for k in a.cores))
+        if not c:
+            return None
+        x = rng.choice(c)
+        y = _partner(rng, S, x.obj, True, 'T')
+        return [x.sid] + ([y.sid] if y is not None else []), {'expr': rng.choice(['dot', 'norm', 'sum']), 'list': rng.random() < 0.3}
+
+    @staticmethod
+    def run(S, objs, p):
+        x = objs[0]
+        y = objs[1] if len(objs) > 1 else x
+        torchtt.grad.watch(x)
+        try:
+            if p['expr'] == 'dot':
+                val = torchtt.dot(x, y.detach() if y is not x else x)
+            elif p['expr'] == 'norm':
+                val = (x - y.detach()).norm(True) if y is not x else x.norm(True)
+            else:
+                val = (x * x).sum()
+            if p['list']:
+                g = torchtt.grad.grad_list(val, [x])
+            else:
+                g = torchtt.grad.grad(val, x)
+        finally:
+            torchtt.grad.unwatch(x)
+            for c in x.cores:
+                c.grad = None
         return None
 
 
